@@ -20,6 +20,7 @@ import numpy as np
 
 from . import common as C
 from . import c11_util as U
+from . import c12_util as F
 from . import geomgen as G
 
 ANCHOR_FILES = ['spatialpandas/io/parquet.py', 'spatialpandas/dask.py']
@@ -49,11 +50,19 @@ KIND_PAIRS = [('point', 'polygon'), ('multipoint', 'line'), ('polygon', 'point')
 
 
 def _tb(series):
-    return tuple(U.gnum(v) for v in series.total_bounds)
+    return tuple(F.gnum(v) for v in series.total_bounds)
 
 
 def _nan_eq_rows(a, b):
     return a == b
+
+
+def _model(fn, case):
+    """the model's value on one case, as Coq prints it; when the case holds non-integral floats every
+    number was multiplied by 2^k first (exact), and k is reported next to the value"""
+    term, k = F.coq_term(case)
+    txt = C.coq_eval(IMPORTS, f'{fn} {term}')
+    return txt if k == 0 else {'all_numbers_times_2_to_the': k, 'value': txt[:4000]}
 
 
 class _DaskProxy:
@@ -105,11 +114,11 @@ def pack_case(rep, ds, write_info, pk):
     """the observed write_info through Model/MetaCodec.v pack_layout = the files and the bounds found"""
     path, pieces = ds['path'], ds['pieces']
     wi_term = [None if x is None else
-               C.Some((C.Nat(k), [(str(c), tuple(U.gnum(v) for v in b)) for c, b in x['total_bounds'].items()]))
+               C.Some((C.Nat(k), [(str(c), tuple(F.gnum(v) for v in b)) for c, b in x['total_bounds'].items()]))
                for k, x in enumerate(write_info)]
     nonempty = [k for k, x in enumerate(write_info) if x is not None]
     raw = U.raw_spatial_metadata(path)
-    stored = [(col, [tuple(U.gnum(dict(dict(cols)[c])[str(j)]) for c in ('x0', 'y0', 'x1', 'y1'))
+    stored = [(col, [tuple(F.gnum(dict(dict(cols)[c])[str(j)]) for c in ('x0', 'y0', 'x1', 'y1'))
                      for j in range(len(dict(cols)['x0']))]) for col, cols in (raw or [])]
     files = sorted(f for f in os.listdir(path) if f.endswith('.parquet'))
     real_files = [(os.path.join(path, f'part.{j}.parquet'), C.Nat(k)) for j, k in enumerate(nonempty)]
@@ -121,7 +130,7 @@ def pack_case(rep, ds, write_info, pk):
     for j, k in enumerate(nonempty):
         x = write_info[k]
         # (x['meta'] of the first part accumulates every part's row groups: not comparable)
-        if any(tuple(U.gnum(v) for v in b) != _tb(pieces[j][c]) for c, b in x['total_bounds'].items()):
+        if any(tuple(F.gnum(v) for v in b) != _tb(pieces[j][c]) for c, b in x['total_bounds'].items()):
             rep.count('internal-differs:pack-file-content')
             return
     pk[0].append((path, wi_term))
@@ -159,6 +168,12 @@ def make_frame12(spec):
                          index_kind='range', derive_steps=spec.get('derive', 0), payload=('v',))
     df = df[['ga', 'v', 'gb']] if spec.get('order', 0) == 0 else df[['v', 'gb', 'ga']]
     df['v'] = df['v'] + spec.get('voffset', 0)
+    if spec.get('coords'):
+        # coordinates that are not small integers: every integer coordinate is replaced by the value a
+        # strictly increasing table (one per axis, of the value class named in the spec) gives it
+        tx, ty = F.coord_tables(spec['seed'] + 17, tuple(spec['coords']))
+        for c, st in zip(('ga', 'gb'), spec['subtypes']):
+            df[c] = F.map_coords(df[c].array, tx, ty, st)
     if spec.get('missing_head'):
         # a leading block of rows without any coordinate, so that whole partitions have a NaN extent
         h = spec['missing_head']
@@ -331,7 +346,7 @@ def check_read(rep, datasets, how, geometry, boxes, rb_cases, rb_res, rb_meta, c
     pieces = [p for d in datasets for p in d['pieces']]
     ids = [list(p['v']) for p in pieces]
     raws = [U.raw_spatial_metadata(d['path']) for d in datasets]
-    ds_term = [U.dataset_term(r) for r in raws]
+    ds_term = [F.dataset_term(r) for r in raws]
     specs = [d['spec'] for d in datasets]
     meta0 = {'stream': 'dataset', 'specs': specs, 'how': how, 'geometry': geometry}
     active = geometry or datasets[0]['geom'][0]
@@ -395,7 +410,7 @@ def check_read(rep, datasets, how, geometry, boxes, rb_cases, rb_res, rb_meta, c
                               {**meta0, 'box': box, 'column': col})
             # the bounds reported are those of the partitions kept (= their true extents), in order;
             # when nothing is kept the result is one empty stand-in partition without extent
-            rows = U.bbox_rows(fr)
+            rows = F.bbox_rows(fr)
             want = true_kept[col] if kept else [(None, None, None, None)] * len(rows)
             if rows != want:
                 badj = [j for j in range(min(len(rows), len(want))) if rows[j] != want[j]]
@@ -407,8 +422,8 @@ def check_read(rep, datasets, how, geometry, boxes, rb_cases, rb_res, rb_meta, c
         # order the documents name the columns; when a dataset has no metadata or nothing is kept there
         # are no stored bounds to report (what the public API then shows is computed from the rows)
         nometa = any(x is None for x in raws)
-        cb = [] if (nometa or not kept) else [(c, U.bbox_rows(pub[c])) for c in doc_columns(raws) if c in pub]
-        rb_cases.append((ds_term, C.Nat(len(pieces)), active, U.qbox_term(box)))
+        cb = [] if (nometa or not kept) else [(c, F.bbox_rows(pub[c])) for c in doc_columns(raws) if c in pub]
+        rb_cases.append((ds_term, C.Nat(len(pieces)), active, F.qbox_term(box)))
         rb_res.append(C.Some((cb, [C.Nat(i) for i in kept])))
         rb_meta.append({**meta0, 'box': box, 'kept': kept, 'reported': cb})
         if box is None:
@@ -451,6 +466,11 @@ def check_read(rep, datasets, how, geometry, boxes, rb_cases, rb_res, rb_meta, c
                 rep.nontrivial(('prune', how, json.dumps(specs, sort_keys=True), geometry, tuple(box)))
 
 
+def extents(d, col):
+    """true extents of the part files of column col, as float rows (NaN where there is none)"""
+    return [tuple(float('nan') if v is None else float(v) for v in _tb(p[col])) for p in d['pieces']]
+
+
 def _sample(rng, l, k):
     return rng.sample(l, min(k, len(l)))
 
@@ -477,8 +497,8 @@ def dump_cases(datasets, d_cases, d_res, d_meta):
                 continue
             true = [_tb(p[col]) for p in d['pieces']]
             dd_ = dict(cols)
-            ent = lambda k: [(str(key), U.gnum(v)) for key, v in dd_.get(k, [])]
-            d_cases.append((true, U.json_cols_term(cols)))
+            ent = lambda k: [(str(key), F.gnum(v)) for key, v in dd_.get(k, [])]
+            d_cases.append((true, F.json_cols_term(cols)))
             d_res.append((C.Some(true), (ent('x0'), ent('y0'), ent('x1'), ent('y1'))))
             d_meta.append({'stream': 'dataset', 'specs': [d['spec']], 'column': col, 'true': true,
                            'raw_keys': [k for k, _ in dd_.get('x0', [])]})
@@ -487,7 +507,7 @@ def dump_cases(datasets, d_cases, d_res, d_meta):
 def stored_json_check(rep, dm):
     cases, ress, metas = dm
     # parsed content
-    bad = C.coq_mismatches(IMPORTS, "fun '(bs, j) => load j", 'list bbox * bounds_json', 'option (list bbox)',
+    bad = F.coq_mismatches(IMPORTS, "fun '(bs, j) => load j", 'list bbox * bounds_json', 'option (list bbox)',
                            cases, [r[0] for r in ress], shard=60)
     for i in bad[:1]:
         m = metas[i]
@@ -495,9 +515,9 @@ def stored_json_check(rep, dm):
                       'the bounds stored in _common_metadata (parsed, loaded by the model) are not the true extents '
                       'of the part files',
                       {**m, 'stored': ress[i][1],
-                       'model_load': C.coq_eval(IMPORTS, f'load {C.coq(cases[i][1])}')})
+                       'model_load': _model('load', cases[i][1])})
     # extra: textual shape
-    bad = C.coq_mismatches(IMPORTS, "fun '(bs, j) => " + '(' + DUMP_FN + ') bs',
+    bad = F.coq_mismatches(IMPORTS, "fun '(bs, j) => " + '(' + DUMP_FN + ') bs',
                            'list bbox * bounds_json', DUMP_RES, cases, [r[1] for r in ress], shard=60)
     if bad:
         rep.count('extra:json-document-order-differs-from-model-dump', len(bad))
@@ -577,22 +597,22 @@ def synth_check(rep, sc, docs):
         try:
             r = read_parquet_dask(path)
             pub = public_bounds(r, [col for col, _ in doc])
-            res = C.Some([(col, U.bbox_rows(pub[col])) for col, _ in doc])
+            res = C.Some([(col, F.bbox_rows(pub[col])) for col, _ in doc])
         except Exception:
             res = None
-        cases.append([(col, U.json_cols_term(cols)) for col, cols in doc])
+        cases.append([(col, F.json_cols_term(cols)) for col, cols in doc])
         ress.append(res)
         metas.append({'stream': 'synth', 'style': style, 'doc': doc, 'impl': res})
         rep.evaluations += 1
         rep.count('synth:' + style)
         if n >= 11:
             rep.nontrivial(('synth', text))
-    bad = C.coq_mismatches(IMPORTS, LOAD_FN, LOAD_CASE, LOAD_RES, cases, ress)
+    bad = F.coq_mismatches(IMPORTS, LOAD_FN, LOAD_CASE, LOAD_RES, cases, ress)
     for i in bad[:5]:
         rep.violation('load-differs',
                       'the partition bounds read_parquet_dask exposes for a metadata document differ from '
                       'Model/MetaCodec.v load of that document',
-                      {**metas[i], 'model': C.coq_eval(IMPORTS, f'{LOAD_FN} {C.coq(cases[i])}')})
+                      {**metas[i], 'model': _model(LOAD_FN, cases[i])})
 
 
 # --------------------------------------------------------------------------
@@ -622,6 +642,104 @@ def dataset_specs(rep, tier):
                               'index': 'shuffled' if writer == 'to_parquet' and k % 2 == 0 else 'range',
                               'compression': rng.choice(['snappy', 'gzip', None])})
     return specs
+
+
+def float_specs(rep, tier):
+    """datasets whose coordinates are not small integers: one per value class of c12_util.COORD_MODES and
+    writer (the y axis gets another class), partition counts on both sides of 10/11"""
+    rng = rep.rng
+    parts = [2, 12, 3, 11, 16, 1, 13, 7, 10, 12]
+    specs = []
+    k = 0
+    for _ in range(1 if tier == 'quick' else 4):
+        for mode in F.COORD_MODES:
+            for writer in ('to_parquet', 'pack'):
+                npart = parts[k % len(parts)]
+                kinds = KIND_PAIRS[(k * 3 + 1) % len(KIND_PAIRS)]
+                k += 1
+                specs.append({'writer': writer, 'npartitions': npart, 'kinds': kinds,
+                              'subtypes': ('float64', rng.choice(['float64', 'float64', 'float64', 'float32'])),
+                              'coords': (mode, rng.choice(F.COORD_MODES)),
+                              'nrows': max(npart, rng.randint(npart * 2, npart * 3 + 6)),
+                              'seed': rng.randrange(10 ** 9), 'order': rng.randint(0, 1), 'derive': 0,
+                              'missing_head': rng.choice([0, 0, 0, 3]),
+                              'index': 'shuffled' if writer == 'to_parquet' and k % 4 == 0 else 'range',
+                              'compression': rng.choice(['snappy', None])})
+    return specs
+
+
+def drop_common_metadata(ds):
+    """the same dataset without its _common_metadata file (a copy of the part files would do as well):
+    there are no recorded bounds any more, so bounds= cannot prune and the bounds shown are computed"""
+    f = os.path.join(ds['path'], '_common_metadata')
+    if os.path.exists(f):
+        os.remove(f)
+    return {**ds, 'spec': {**ds['spec'], 'drop_common_metadata': True}}
+
+
+def check_divisions(rep, ds, boxes):
+    """read_parquet_dask(load_divisions=True, bounds=box) against the same read without load_divisions
+    (which check_read compares with the model): same rows in the same order, same number of partitions,
+    same reported bounds; the divisions are the smallest index value of every partition kept followed by
+    the largest of the last one.  When load_divisions=True cannot be served at all for the dataset
+    (the read without bounds= raises) the read with bounds= must fail in the same way: this is counted,
+    not reported, the property says nothing about divisions."""
+    from spatialpandas.io import read_parquet_dask
+    meta0 = {'stream': 'dataset', 'specs': [ds['spec']], 'how': 'single', 'geometry': None,
+             'load_divisions': True}
+    geom = ds['geom']
+
+    def attempt(**kw):
+        try:
+            r = read_parquet_dask(ds['path'], **kw)
+            return r, r.compute(), None
+        except Exception as e:
+            return None, None, e
+    _, _, base_err = attempt(load_divisions=True)
+    for box in boxes:
+        r0, got0, e0 = attempt(bounds=box)
+        r1, got1, e1 = attempt(bounds=box, load_divisions=True)
+        rep.evaluations += 1
+        if e0 is not None:
+            continue                                     # reported by check_read
+        if e1 is not None:
+            cls = type(e1).__name__
+            if base_err is not None and type(base_err) is type(e1):
+                rep.count(f'load_divisions:unavailable:{cls}')
+                continue
+            if isinstance(e1, ValueError) and 'unsorted' in str(e1):
+                ends = [(p.index.min(), p.index.max()) for p in ds['pieces'] if len(p)]
+                flat = [a for a, _ in ends] + [ends[-1][1]] if ends else []
+                if flat != sorted(flat):
+                    rep.count('load_divisions:unsorted-refused')
+                    continue
+            rep.violation('load-divisions-read-raises:' + cls,
+                          f'read_parquet_dask(load_divisions=True, bounds=...) raised {e1!r} while the same read '
+                          f'without bounds= ' + ('returns' if base_err is None else f'raises {base_err!r}'),
+                          {**meta0, 'box': box})
+            continue
+        rep.count('load_divisions:served')
+        vs0, vs1 = list(got0['v']), list(got1['v'])
+        if vs0 != vs1 or r0.npartitions != r1.npartitions:
+            rep.violation('load-divisions-rows-differ',
+                          'load_divisions=True changes the rows / partitions a bounds= read returns',
+                          {**meta0, 'box': box, 'rows': vs1[:50], 'rows_without': vs0[:50],
+                           'npartitions': [r1.npartitions, r0.npartitions]})
+            continue
+        for c in geom:
+            if F.bbox_rows(r1[c].partition_bounds) != F.bbox_rows(r0[c].partition_bounds):
+                rep.violation('load-divisions-bounds-differ',
+                              f'load_divisions=True changes the bounds reported for column {c} after a bounds= read',
+                              {**meta0, 'box': box, 'column': c})
+        have = set(vs1)
+        kept = [p for p in ds['pieces'] if len(p) and set(p['v']) <= have]
+        if kept and len(kept) == r1.npartitions:
+            want = tuple([p.index.min() for p in kept] + [kept[-1].index.max()])
+            if tuple(r1.divisions) != want:
+                rep.violation('load-divisions-differ',
+                              'the divisions of a bounds= read are not the index ranges of the partitions kept',
+                              {**meta0, 'box': box, 'divisions': [repr(d) for d in r1.divisions],
+                               'expected': [repr(d) for d in want]})
 
 
 def corpus_specs():
@@ -684,7 +802,8 @@ def run(rep):
         # natural sort
         U.natsort_check(rep, U.natsort_cases(rep.rng, 60 if tier == 'quick' else 2000), 'C12')
         # synthetic metadata
-        synth_check(rep, sc, synth_docs(rep.rng, 150 if tier == 'quick' else 3000))
+        synth_check(rep, sc, synth_docs(rep.rng, 150 if tier == 'quick' else 3000) +
+                    F.float_synth_docs(rep.rng, 90 if tier == 'quick' else 1500, SYNTH_PARTS))
         # real datasets
         specs = dataset_specs(rep, tier)
         nbox = 3 if tier == 'quick' else 8
@@ -699,10 +818,6 @@ def run(rep):
                 dump_cases([ds], *dm)
                 col0 = ds['geom'][0]
                 other = ds['geom'][1]
-
-                def extents(d, col):
-                    return [tuple(float('nan') if v is None else float(v.v) for v in _tb(p[col]))
-                            for p in d['pieces']]
                 rows0, rows1 = extents(ds, col0), extents(ds, other)
                 quick = tier == 'quick'
                 b0 = boxes_for(rep.rng, rows0, nbox)
@@ -758,6 +873,19 @@ def run(rep):
                             _sample(rep.rng, boxes_for(rep.rng, extents(dsr, dsr['geom'][0]), nbox)[7:], 2)
                         check_read(rep, [dsr], 'single', None, br, *acc)
                         check_read(rep, [dsr], 'single', dsr['geom'][1], br[:2], *acc)
+                # load_divisions=True together with bounds= (packed datasets carry the hilbert_distance index;
+                # a to_parquet dataset has none): against the same read without load_divisions
+                if si % 4 == 1 or (spec['writer'] == 'pack' and si % 2 == 0):
+                    check_divisions(rep, ds, [b0[1]] + _sample(rep.rng, b0[5:], 2))
+                # the dataset without its _common_metadata file, read with bounds=: nothing recorded, nothing
+                # pruned, the bounds shown are those of the rows (done last: the file is removed in place)
+                if si % 4 == 2:
+                    dsn = drop_common_metadata(ds)
+                    bn = [b0[1]] + _sample(rep.rng, b0[5:], 3)
+                    check_read(rep, [dsn], 'single', None, bn, *acc)
+                    check_read(rep, [dsn], 'single', other, bn[:1], *acc)
+                    rep.count(f'no-common-metadata:{spec["writer"]}')
+                    continue
                 if si % 6 == 1:
                     # ... and a dataset written by Dask's own writer (no spatialpandas metadata) next to it
                     spec3 = {**spec, 'seed': spec['seed'] + 2, 'tag': 'c', 'voffset': 200000, 'writer': 'plain',
@@ -767,8 +895,39 @@ def run(rep):
                         b3 = [(100, 100, 101, 101), (0, 0, 1, 1)]
                         check_read(rep, [ds, ds3], 'list', None, b3, *acc)
                         check_read(rep, [ds3], 'single', None, b3[:1], *acc)
+        # coordinates that are not small integers (decimals, 16-17 significant digits, 1e-11, 2^53 / 1e16 /
+        # 1e22, extents of a few ulps, float32 values, -0.0): stored JSON, exposed bounds and true extents
+        # compared as exact binary64 values; boxes that touch an extent exactly / one ulp beyond
+        fspecs = float_specs(rep, tier)
+        for si, spec in enumerate(fspecs):
+            with U.Scratch() as s2:
+                quick = tier == 'quick'
+                ds = build_dataset(rep, s2, {**spec, 'dirname': 'ds_b_float'}, pk)
+                if ds is None:
+                    continue
+                dump_cases([ds], *dm)
+                col0, other = ds['geom']
+                rows0, rows1 = extents(ds, col0), extents(ds, other)
+                b0 = F.fine_boxes(rep.rng, rows0, nbox)
+                b0 = b0[:7] + _sample(rep.rng, b0[7:], 6 if quick else len(b0) - 7)
+                check_read(rep, [ds], 'single', None, b0, *acc)
+                b1 = F.fine_boxes(rep.rng, rows1, nbox)
+                check_read(rep, [ds], 'single', other, _sample(rep.rng, b1[7:], 3 if quick else 12), *acc)
+                rep.count(f'float-coords:{spec["coords"][0]}:{spec["writer"]}')
+                nonint = sum(1 for r in rows0 + rows1 for v in r if math.isfinite(v) and v != int(v))
+                rep.count('float-coords:non-integral-extent-values', nonint)
+                if si % 5 == 0:
+                    spec2 = {**spec, 'seed': spec['seed'] + 1, 'dirname': 'ds_a_float', 'voffset': 100000,
+                             'npartitions': 2 if spec['npartitions'] >= 11 else 11, 'missing_head': 0}
+                    spec2['nrows'] = spec2['npartitions'] * 2
+                    ds2 = build_dataset(rep, s2, spec2)
+                    if ds2 is not None:
+                        dump_cases([ds2], *dm)
+                        check_read(rep, [ds, ds2], 'list', None, _sample(rep.rng, b0[2:], 3), *acc)
+                if si % 5 == 3:
+                    check_read(rep, [drop_common_metadata(ds)], 'single', None, _sample(rep.rng, b0[2:], 2), *acc)
     # model comparisons
-    bad = C.coq_mismatches(IMPORTS, RB_FN, RB_CASE, RB_RES, rb[0], rb[1], shard=40)
+    bad = F.coq_mismatches(IMPORTS, RB_FN, RB_CASE, RB_RES, rb[0], rb[1], shard=40)
     seen = set()
     for i in bad:
         m = rb[2][i]
@@ -778,10 +937,10 @@ def run(rep):
         seen.add(sig)
         rep.violation(sig, ('_partition_bounds / kept partitions of read_parquet_dask differ from the model '
                             '(load of the stored JSON, concatenation, bounds= filter)'),
-                      {**m, 'model': C.coq_eval(IMPORTS, f'({RB_FN}) {C.coq(rb[0][i])}')})
+                      {**m, 'model': _model(f'({RB_FN})', rb[0][i])})
     stored_json_check(rep, dm)
     # optional extra on an internal (write_info): counted only
-    bad = C.coq_mismatches(IMPORTS, PK_FN, PK_CASE, PK_RES, pk[0], pk[1], shard=40)
+    bad = F.coq_mismatches(IMPORTS, PK_FN, PK_CASE, PK_RES, pk[0], pk[1], shard=40)
     if bad:
         rep.count('internal-differs:pack-layout', len(bad))
     rep.extra['internal_pack_layout_differ_from_model'] = len(bad)
@@ -827,15 +986,21 @@ def replay(rep, rp):
                     spec = fix(spec)
                     if not spec.get('dirname'):
                         spec['tag'] = 'abcd'[j]
-                    dss.append(build_dataset(rep, sc, spec, pkr))
+                    d = build_dataset(rep, sc, spec, pkr)
+                    if d is not None and spec.get('drop_common_metadata'):
+                        d = drop_common_metadata(d)
+                    dss.append(d)
                 if any(d is None for d in dss):
                     return False
                 dump_cases(dss[:1], *dm)
                 boxes = [_unbox(rp['box'])] if rp.get('box') else []
-                check_read(rep, dss, rp.get('how', 'single'), rp.get('geometry'), boxes, *acc)
-            bad = C.coq_mismatches(IMPORTS, RB_FN, RB_CASE, RB_RES, rb[0], rb[1])
+                if rp.get('load_divisions'):
+                    check_divisions(rep, dss[0], boxes)
+                else:
+                    check_read(rep, dss, rp.get('how', 'single'), rp.get('geometry'), boxes, *acc)
+            bad = F.coq_mismatches(IMPORTS, RB_FN, RB_CASE, RB_RES, rb[0], rb[1])
             for i in bad:
-                print('model differs:', rb[2][i], C.coq_eval(IMPORTS, f'({RB_FN}) {C.coq(rb[0][i])}'))
+                print('model differs:', rb[2][i], _model(f'({RB_FN})', rb[0][i]))
                 rep.violation('model', 'differs', {})
             stored_json_check(rep, dm)
     for v in rep.violations:
